@@ -377,4 +377,169 @@ theorem PU.step {v : Nat} {done : List Item} {s : TxSt × List Chg} (hp : PU N0 
 
 end
 
+/-! ### a partial grows by every changeset of its version -/
+
+theorem rangesFor_append (a v : Nat) (l1 l2 : List Item) :
+    rangesFor a v (l1 ++ l2) = rangesFor a v l1 ++ rangesFor a v l2 := by
+  unfold rangesFor; rw [List.filterMap_append]
+
+theorem mem_rangesFor {a v : Nat} {items : List Item} {r : Nat × Nat} :
+    r ∈ rangesFor a v items ↔ (∃ last cs, Item.full a v r.1 r.2 last cs ∈ items) ∧ r.1 ≤ r.2 := by
+  unfold rangesFor
+  rw [List.mem_filterMap]
+  constructor
+  · rintro ⟨it, hit, he⟩
+    cases it with
+    | empty => cases he
+    | full a' w lo hi last cs =>
+      simp only at he
+      split at he
+      · rename_i hc
+        simp only [Option.some.injEq] at he
+        obtain ⟨rfl, rfl, h3⟩ := hc
+        subst he
+        exact ⟨⟨last, cs, hit⟩, h3⟩
+      · cases he
+  · rintro ⟨⟨last, cs, hit⟩, hle⟩
+    refine ⟨_, hit, ?_⟩
+    simp only [hle, and_self, if_true]
+
+theorem contains_some_gaps {b : Booked} {v : Nat} {s : Nat × Nat} {q : Partial}
+    (h : b.contains v (some s) = true) (hq : b.partial? v = some q) : (RSet.gaps q.seqs s).isEmpty = true := by
+  rw [contains_some_eq, hq, Bool.and_eq_true] at h
+  exact h.2
+
+section
+variable {L : Log} {N0 : Node} {site : Nat} {R0 : List Chg} {C0 : List (Nat × Nat × Nat)}
+  {A0 : List (Nat × Nat)}
+
+/-- the partial `q` of version `v` contains the old partial `q0` (same `last_seq`), the range of every
+changeset of the version among `done`, and what `seen` records for the version -/
+def Grown (site v : Nat) (q0 : Partial) (done : List Item) (seen : List ((Nat × Nat) × Option Partial))
+    (q : Partial) : Prop :=
+  q.last = q0.last ∧ (∀ x, RSet.Mem q0.seqs x → RSet.Mem q.seqs x) ∧
+  (∀ r ∈ rangesFor site v done, ∀ x, r.1 ≤ x → x ≤ r.2 → RSet.Mem q.seqs x) ∧
+  (∀ pm, seenGet seen v = some (some pm) → RSet.WF pm.seqs ∧ ∀ x, RSet.Mem pm.seqs x → RSet.Mem q.seqs x) ∧
+  seenGet seen v ≠ some none
+
+/-- progress of version `v`, held as the partial `q0` before the transaction, after the changesets
+`done`: it will be held, or its partial has grown -/
+def PB (N0 : Node) (site v : Nat) (q0 : Partial) (done : List Item) (s : TxSt × List Chg) : Prop :=
+  WillHold (vbOf N0 site s) v ∨
+    ∃ q, (vbOf N0 site s).partial? v = some q ∧ Grown site v q0 done s.1.seen q
+
+theorem PB.init {v : Nat} {q0 : Partial} (hq0 : (N0.booked site).partial? v = some q0) :
+    PB N0 site v q0 [] ({ node := N0, seen := [], processed := [], clears := [] }, []) := by
+  right
+  refine ⟨q0, hq0, rfl, fun x hx => hx, ?_, ?_, ?_⟩
+  · intro r hr; cases hr
+  · intro pm hpm; cases hpm
+  · intro h; cases h
+
+theorem PB.step {v : Nat} {q0 : Partial} {done : List Item} {s : TxSt × List Chg}
+    (hq0 : (N0.booked site).partial? v = some q0) (hwf0 : RSet.WF q0.seqs)
+    (hp : PB N0 site v q0 done s) (h : TXI L N0 site R0 C0 A0 s) (it : Item) (hs : it.site = site) :
+    PB N0 site v q0 (done ++ [it]) (txStepG (N0.booked site) s it) := by
+  rcases hp with hw | ⟨q, hq, hlast, hsub0, hranges, hseenS, hseenN⟩
+  · exact Or.inl (h.willHold_step it hs hw)
+  obtain ⟨st, M⟩ := s
+  unfold PB txStepG vbOf at *
+  simp only at *
+  -- the ranges of `done ++ [it]`, given those of `it`
+  have hgrow : ∀ (q' : Partial), (∀ x, RSet.Mem q.seqs x → RSet.Mem q'.seqs x) →
+      (∀ lo hi last cs, it = Item.full site v lo hi last cs → lo ≤ hi → ∀ x, lo ≤ x → x ≤ hi → RSet.Mem q'.seqs x) →
+      ∀ r ∈ rangesFor site v (done ++ [it]), ∀ x, r.1 ≤ x → x ≤ r.2 → RSet.Mem q'.seqs x := by
+    intro q' hqq hnew r hr x h1 h2
+    rw [rangesFor_append] at hr
+    rcases List.mem_append.mp hr with hr | hr
+    · exact hqq x (hranges r hr x h1 h2)
+    · obtain ⟨⟨last, cs, hm⟩, hle⟩ := mem_rangesFor.mp hr
+      simp only [List.mem_singleton] at hm
+      exact hnew r.1 r.2 last cs hm.symm hle x h1 h2
+  cases stepKind (N0.booked site) site st it hs with
+  | skip hsk why =>
+    rw [hsk]
+    right
+    refine ⟨q, hq, hlast, hsub0, hgrow q (fun x hx => hx) ?_, hseenS, hseenN⟩
+    rintro lo hi last cs rfl hle x h1 h2
+    rcases why with hc | hc | ⟨v', lo', hi', last', cs', he, hlt⟩
+    · have hc' : (N0.booked site).containsAll v v (some (lo, hi)) = true := hc
+      rw [containsAll_single] at hc'
+      exact hsub0 x (mem_of_gaps_empty hwf0 (contains_some_gaps hc' hq0) ⟨h1, h2⟩)
+    · rw [alreadySeen_full_eq] at hc
+      cases hsg : seenGet st.seen v with
+      | none => rw [hsg] at hc; cases hc
+      | some o =>
+        cases o with
+        | none => exact absurd hsg hseenN
+        | some pm =>
+          rw [hsg] at hc
+          obtain ⟨hw, hsub⟩ := hseenS pm hsg
+          exact hsub x (mem_of_gaps_empty hw hc ⟨h1, h2⟩)
+    · simp only [Item.full.injEq] at he
+      omega
+  | none vlo vhi hlh hv hshape hnc hns hseen hproc =>
+    rw [hproc, cV_none_eq, hseen]
+    by_cases hin : vlo ≤ v ∧ v ≤ vhi
+    · left
+      refine ⟨(none_step_cv h hlh v).mpr (Or.inl hin), ?_⟩
+      intro p hp'
+      rw [none_step_partial, if_pos hin] at hp'
+      cases hp'
+    · right
+      refine ⟨q, by rw [none_step_partial, if_neg hin]; exact hq, hlast, hsub0, hgrow q (fun x hx => hx) ?_, ?_, ?_⟩
+      · rintro lo hi last cs rfl _
+        simp only [Item.versions, Prod.mk.injEq] at hv
+        exact absurd ⟨by omega, by omega⟩ hin
+      · intro pm hpm
+        rw [seenGet_cons, if_neg hin] at hpm
+        exact hseenS pm hpm
+      · rw [seenGet_cons, if_neg hin]; exact hseenN
+  | buffer v' lo hi last cs hit hlh hinc hnc hns hst =>
+    rw [hst, cV_buffer_eq, stBuffer_seen]
+    have hVb := vNode_booked (N0.booked site) site st
+    by_cases hv : v = v'
+    · subst hv
+      right
+      have hq' : ((vNode (N0.booked site) site st).booked site).partial? v = some q := by rw [hVb]; exact hq
+      have hm := @mem_bufPartial (vNode (N0.booked site) site st) site v lo hi last cs hlh
+      have hch := (bufferChunk_setBooked st.node site (cV (N0.booked site) site st.processed).1 site v lo hi last cs).1
+      have hrange := bufChunk_range (vNode (N0.booked site) site st) site v lo hi last cs
+      have hfwd := bufChunk_fwd (vNode (N0.booked site) site st) site v last cs hlh
+      refine ⟨bufPartial (vNode (N0.booked site) site st) site v lo hi last cs, bufBooked_partial_same _ _ _ _ _ _ _,
+        ?_, ?_, ?_, ?_, ?_⟩
+      · rw [bufPartial_last, hq']; exact hlast
+      · intro x hx
+        exact (hm x).mpr (Or.inl ⟨q, hq', hsub0 x hx⟩)
+      · apply hgrow _ (fun x hx => (hm x).mpr (Or.inl ⟨q, hq', hx⟩))
+        intro lo' hi' last' cs' he _ x h1 h2
+        simp only [hit, Item.full.injEq] at he
+        obtain ⟨_, _, rfl, rfl, _⟩ := he
+        exact (hm x).mpr (Or.inr ⟨by omega, by omega⟩)
+      · intro pm hpm
+        rw [seenGet_cons, if_pos ⟨Nat.le_refl _, Nat.le_refl _⟩] at hpm
+        simp only [Option.some.injEq] at hpm
+        subst hpm
+        simp only
+        have hch' : (st.node.bufferChunk site v lo hi last cs).2 =
+            ((vNode (N0.booked site) site st).bufferChunk site v lo hi last cs).2 := hch.symm
+        rw [hch']
+        refine ⟨wf_single_range hfwd, ?_⟩
+        intro x hx
+        exact (hm x).mpr (Or.inr ((mem_single_range _ _ _).mp hx))
+      · rw [seenGet_cons, if_pos ⟨Nat.le_refl _, Nat.le_refl _⟩]
+        intro hc; cases hc
+    · right
+      refine ⟨q, ?_, hlast, hsub0, hgrow q (fun x hx => hx) ?_, ?_, ?_⟩
+      · rw [bufBooked_partial_other _ _ _ _ _ _ _ v hv, hVb]; exact hq
+      · intro lo' hi' last' cs' he
+        simp only [hit, Item.full.injEq] at he
+        exact absurd he.2.1.symm hv
+      · intro pm hpm
+        rw [seenGet_cons, if_neg (by omega)] at hpm
+        exact hseenS pm hpm
+      · rw [seenGet_cons, if_neg (by omega)]; exact hseenN
+
+end
+
 end Corro.ClusterSys
